@@ -133,6 +133,29 @@ func init() {
 		fr.i.path.intMode = a[0].(bool)
 		return nil
 	}
+	externals[zz+"Exists"] = func(fr *frame, a []value) value {
+		t := fr.i.path.simplify(toTerm(a[0]))
+		if t.isConst() {
+			return t.val != 0
+		}
+		p := fr.i.path
+		if p.pos < len(p.prefix) {
+			p.abort(OutEngineError, "zzvp.Exists during replay must be deterministic: use it after all decisions of interest")
+		}
+		p.ensureModel()
+		if p.evalBool(t) {
+			return true
+		}
+		res, _ := p.query(false, t)
+		switch res {
+		case "sat":
+			return true
+		case "unsat":
+			return false
+		}
+		p.abort(OutInconclusive, "solver answered %s on Exists", res)
+		return false
+	}
 	externals[zz+"Symbolic"] = func(fr *frame, a []value) value { return true }
 	externals[zz+"Output"] = func(fr *frame, a []value) value { return fr.i.path.out.String() }
 }
